@@ -59,7 +59,13 @@ type c09Pod struct {
 	Class   extension.PriorityClass // ground truth
 	Repr    int                     // 0 priority-class label, 1 spec.priority band, 2 QoS-label default (prod<-LS, batch<-BE)
 	Phase   corev1.PodPhase
-	Request c09Res
+	Request c09Res // sum over the containers (split over one or two of them)
+	Init    c09Res // one init container, zero = none
+	Split   bool   // two containers
+}
+
+func (p c09Pod) request() c09Res {
+	return c09Res{c09Max(p.Request[0], p.Init[0]), c09Max(p.Request[1], p.Init[1])}
 }
 
 type c09App struct {
@@ -72,6 +78,8 @@ type c09Input struct {
 	Cap, KubeletReserved c09Res
 	AnnoHas              [2]bool
 	AnnoRes              c09Res
+	AnnoCPUSet           bool   // the CPU reservation is written as reservedCPUs (whole CPUs)
+	AnnoPolicy           string // applyPolicy; ReservedCPUsOnly is left out of the oracle's reservation (weaker bound)
 	Pods                 []c09Pod
 	HostApps             []c09App
 	Sys                  c09Res
@@ -79,6 +87,7 @@ type c09Input struct {
 	NodeUsageHas         [2]bool
 	Reclaimable          c09Res
 	ReclaimableSet       bool
+	ReclaimableOmit      [2]bool  // prod-reclaimable reported without this key
 	Static               int      // 0 mode nil, 1 "static", 2 some other mode string
 	ThrPct               [2]int64 // Mid<Res>ThresholdPercent, -1 nil (default 100)
 	UnallocPct           int64    // MidUnallocatedPercent, -1 nil (default 0)
@@ -135,7 +144,7 @@ func c09Upper(in *c09Input, res int) (thr, mode *big.Rat) {
 		}
 	}
 	reserved := in.KubeletReserved[res]
-	if in.AnnoHas[res] {
+	if in.AnnoHas[res] && in.AnnoPolicy != string(extension.NodeReservationApplyPolicyReservedCPUsOnly) {
 		reserved = c09Max(reserved, in.AnnoRes[res])
 	}
 	var prodReq int64
@@ -146,11 +155,14 @@ func c09Upper(in *c09Input, res int) (thr, mode *big.Rat) {
 		if p.Class == extension.PriorityMid || p.Class == extension.PriorityBatch || p.Class == extension.PriorityFree {
 			continue
 		}
-		prodReq += p.Request[res]
+		prodReq += p.request()[res]
 	}
 	unalloc := c09Max(0, capacity-c09Max(sys, reserved)-prodReq)
 	var reclaim int64
 	if in.ReclaimableSet {
+		if in.ReclaimableOmit[res] { // what a missing key means is not documented: no formula bound
+			return thr, nil
+		}
 		reclaim = in.Reclaimable[res]
 	}
 	a := c09Max(0, func() int64 {
@@ -186,8 +198,13 @@ func (in *c09Input) build() (*configuration.ColocationStrategy, *corev1.Node, *c
 	node := &corev1.Node{ObjectMeta: metav1.ObjectMeta{Name: c09NodeName, Annotations: map[string]string{}},
 		Status: corev1.NodeStatus{Capacity: c09RL(in.Cap), Allocatable: c09RL(alloc)}}
 	if in.AnnoHas[0] || in.AnnoHas[1] {
-		nr := extension.NodeReservation{Resources: corev1.ResourceList{}}
-		if in.AnnoHas[0] {
+		nr := extension.NodeReservation{Resources: corev1.ResourceList{}, ApplyPolicy: extension.NodeReservationApplyPolicy(in.AnnoPolicy)}
+		if in.AnnoHas[0] && in.AnnoCPUSet {
+			nr.ReservedCPUs = fmt.Sprintf("0-%d", in.AnnoRes[0]/1000-1)
+			if in.AnnoRes[0] == 1000 {
+				nr.ReservedCPUs = "0"
+			}
+		} else if in.AnnoHas[0] {
 			nr.Resources[corev1.ResourceCPU] = c09Q(0, in.AnnoRes[0])
 		}
 		if in.AnnoHas[1] {
@@ -230,6 +247,14 @@ func (in *c09Input) build() (*configuration.ColocationStrategy, *corev1.Node, *c
 		pod := corev1.Pod{ObjectMeta: metav1.ObjectMeta{Name: p.Name, Namespace: "c09", Labels: map[string]string{}},
 			Spec:   corev1.PodSpec{NodeName: c09NodeName, Containers: []corev1.Container{{Name: "c", Resources: corev1.ResourceRequirements{Requests: c09RL(p.Request)}}}},
 			Status: corev1.PodStatus{Phase: p.Phase}}
+		if p.Split {
+			a := c09Res{p.Request[0] / 3, p.Request[1] / 3}
+			b := c09Res{p.Request[0] - a[0], p.Request[1] - a[1]}
+			pod.Spec.Containers = []corev1.Container{{Name: "a", Resources: corev1.ResourceRequirements{Requests: c09RL(a)}}, {Name: "b", Resources: corev1.ResourceRequirements{Requests: c09RL(b)}}}
+		}
+		if p.Init != (c09Res{}) {
+			pod.Spec.InitContainers = []corev1.Container{{Name: "init", Resources: corev1.ResourceRequirements{Requests: c09RL(p.Init)}}}
+		}
 		switch p.Repr {
 		case 0:
 			pod.Labels[extension.LabelPodPriorityClass] = string(p.Class)
@@ -260,7 +285,14 @@ func (in *c09Input) build() (*configuration.ColocationStrategy, *corev1.Node, *c
 				Usage: slov1alpha1.ResourceMap{ResourceList: c09RL(h.Usage)}, Priority: h.Prio})
 		}
 		if in.ReclaimableSet {
-			nm.Status.ProdReclaimableMetric = &slov1alpha1.ReclaimableMetric{Resource: slov1alpha1.ResourceMap{ResourceList: c09RL(in.Reclaimable)}}
+			rl := c09RL(in.Reclaimable)
+			if in.ReclaimableOmit[0] {
+				delete(rl, corev1.ResourceCPU)
+			}
+			if in.ReclaimableOmit[1] {
+				delete(rl, corev1.ResourceMemory)
+			}
+			nm.Status.ProdReclaimableMetric = &slov1alpha1.ReclaimableMetric{Resource: slov1alpha1.ResourceMap{ResourceList: rl}}
 		}
 		if in.MetricKind == 0 {
 			nm.Status.UpdateTime = &metav1.Time{Time: c09Now.Add(-time.Duration(in.AgeNanos))}
@@ -392,8 +424,13 @@ func c09Gen(r *kit.Rand) *c09Input {
 	if r.Pct(40) {
 		in.AnnoHas = [2]bool{r.Pct(80), r.Pct(80)}
 		in.AnnoRes = pair(0, 250)
+		if r.Pct(30) { // reservedCPUs: whole CPUs
+			in.AnnoCPUSet = true
+			in.AnnoRes[0] = int64(r.Range(1, int(c09Max(1, in.Cap[0]/4000)))) * 1000
+		}
+		in.AnnoPolicy = []string{"", string(extension.NodeReservationApplyPolicyDefault), string(extension.NodeReservationApplyPolicyReservedCPUsOnly)}[r.Weighted(60, 25, 15)]
 	}
-	n := []int{0, r.Range(1, 4), r.Range(5, 12)}[r.Weighted(10, 50, 40)]
+	n := []int{0, r.Range(1, 4), r.Range(5, 12), r.Range(13, 40)}[r.Weighted(10, 48, 37, 5)]
 	per := []int{500, 1000, 1600}[r.Weighted(45, 35, 20)]/(n+1) + 1
 	for i := 0; i < n; i++ {
 		p := c09Pod{Name: fmt.Sprintf("pod-%d", i)}
@@ -404,12 +441,16 @@ func c09Gen(r *kit.Rand) *c09Input {
 		}
 		p.Phase = []corev1.PodPhase{corev1.PodRunning, corev1.PodPending, corev1.PodSucceeded, corev1.PodFailed, corev1.PodUnknown}[r.Weighted(62, 20, 7, 7, 4)]
 		p.Request = pair(0, 2*per)
+		p.Split = r.Pct(30)
+		if r.Pct(12) {
+			p.Init = c09Res{c09Amt(r, p.Request[0]+10, 300, 2000), c09Amt(r, p.Request[1]+10, 300, 2000)}
+		}
 		in.Pods = append(in.Pods, p)
 	}
 	if r.Pct(30) {
-		for i, k := 0, r.Range(1, 2); i < k; i++ {
+		for i, k := 0, []int{r.Range(1, 2), r.Range(3, 4)}[r.Weighted(85, 15)]; i < k; i++ {
 			in.HostApps = append(in.HostApps, c09App{Name: fmt.Sprintf("app-%d", i),
-				Prio:  []extension.PriorityClass{extension.PriorityProd, extension.PriorityMid, extension.PriorityBatch, extension.PriorityFree}[r.Weighted(50, 20, 25, 5)],
+				Prio:  []extension.PriorityClass{extension.PriorityProd, extension.PriorityMid, extension.PriorityBatch, extension.PriorityFree, extension.PriorityNone}[r.Weighted(48, 20, 24, 5, 3)],
 				Usage: pair(0, 150)})
 		}
 	}
@@ -418,6 +459,9 @@ func c09Gen(r *kit.Rand) *c09Input {
 	in.NodeUsageHas = [2]bool{r.Pct(95), r.Pct(95)}
 	in.ReclaimableSet = r.Pct(85)
 	in.Reclaimable = pair(0, 600)
+	if in.ReclaimableSet && r.Pct(4) {
+		in.ReclaimableOmit[r.Intn(2)] = true
+	}
 	in.Static = r.Weighted(45, 40, 15)
 	pct := func(nilPct int) int64 {
 		if r.Pct(nilPct) {
@@ -428,7 +472,7 @@ func c09Gen(r *kit.Rand) *c09Input {
 	in.ThrPct = [2]int64{pct(30), pct(30)}
 	in.UnallocPct = pct(25)
 	in.StaticPct = [2]int64{pct(20), pct(20)}
-	in.DegradeMin = kit.Pick(r, []int64{1, 5, 15, 60, 1440})
+	in.DegradeMin = kit.Pick(r, []int64{1, 5, 15, 15, 60, 1440, int64(r.Range(1, 10000)), 525600})
 	d := in.DegradeMin * int64(time.Minute)
 	switch r.Weighted(80, 3, 3, 3, 3, 2, 2, 2, 2) {
 	case 0:
@@ -472,7 +516,7 @@ func TestVerifC09Mid(t *testing.T) {
 						in.MetricKind, time.Duration(in.AgeNanos), in.DegradeMin, out.v[0], out.v[1])
 				}
 				c.Count("mid_stale_reset", 1)
-				c.Seen("stale", in.MetricKind, in.DegradeMin)
+				c.Seen("stale", in.MetricKind, in.DegradeMin > 1440)
 				return
 			case boundary:
 				c.Count("mid_age_exactly_at_degrade_time", 1)
